@@ -77,6 +77,13 @@ def main():
     name = "%s-%s" % (args.prop, args.x)
     dst = os.path.join(VERIF, "seeded", name)
     meta = {"id": name, "property": args.prop, "agent_notes": open(meta_txt).read() if os.path.exists(meta_txt) else "", "ran": []}
+    prev_meta = {}
+    if os.path.exists(os.path.join(dst, "meta.json")):
+        prev_meta = json.load(open(os.path.join(dst, "meta.json")))
+        if args.skip_validate:  # keep what an earlier, validating round established
+            for k in ("ran", "valid", "demo_discriminates", "check_rounds", "first_round_missed", "needs_to_manifest"):
+                if k in prev_meta:
+                    meta[k] = prev_meta[k]
     if not os.path.exists(patch):
         print("no patch", patch)
         return 2
@@ -159,6 +166,11 @@ def main():
         shutil.rmtree(outdir, ignore_errors=True)
     meta["checks"] = detected
     meta["detected_by"] = [c for c, d in detected.items() if d["rc"] == 1]
+    rounds = list(prev_meta.get("check_rounds", []))
+    rounds.append({"at": time.strftime("%H:%M:%S"), "quick_check_exit_codes": {c: d["rc"] for c, d in detected.items()}})
+    meta["check_rounds"] = rounds
+    meta["first_round_missed"] = all(rc != 1 for rc in rounds[0]["quick_check_exit_codes"].values())
+    meta["needs_to_manifest"] = meta.get("agent_notes", "")
     os.makedirs(dst, exist_ok=True)
     shutil.copy(patch, os.path.join(dst, "patch.diff"))
     if os.path.isdir(demo):
